@@ -114,6 +114,34 @@ func (fr *Frame) execCall(st *State, cc *ssa.CallCommon, instr ssa.Instruction, 
 		fr.oblige(st, "nil-func-call", fr.describe(cc.Value), nn, nil, pos)
 		fr.assume(st, nn)
 	}
+	// hooks see a call through a function-valued variable or field under that variable's / field's name
+	// (t.opts.DialContext(ctx) is "DialContext"); arg0 is the first argument
+	dname := fr.describe(cc.Value)
+	if i := strings.LastIndex(dname, "."); i >= 0 {
+		dname = dname[i+1:]
+	}
+	if isPlainIdent(dname) {
+		fr.callHooks(st, dname, args, pos)
+		res := fr.execDynCall(st, cc, fv, args, pos)
+		fr.ghostCallUpdates(st, dname, args, res, true)
+		return res
+	}
+	return fr.execDynCall(st, cc, fv, args, pos)
+}
+
+func isPlainIdent(s string) bool {
+	if s == "" {
+		return false
+	}
+	for i, r := range s {
+		if !(r == '_' || r >= 'a' && r <= 'z' || r >= 'A' && r <= 'Z' || (i > 0 && r >= '0' && r <= '9')) {
+			return false
+		}
+	}
+	return true
+}
+
+func (fr *Frame) execDynCall(st *State, cc *ssa.CallCommon, fv Val, args []Val, pos token.Pos) []Val {
 	if n, ok := cc.Value.Type().(*types.Named); ok && n.Obj().Pkg() != nil && n.Obj().Pkg().Path() == "context" &&
 		(n.Obj().Name() == "CancelFunc" || n.Obj().Name() == "CancelCauseFunc") {
 		fr.top.note("calling a context cancel function is assumed to have no effect on the program's heap")
